@@ -81,6 +81,44 @@ def run(tier):
         chk.violate({"op": "find_buf", "kind": "crash", "shape": U.crash_shape(c)[0]},
                     "find_buf(a=%s, needle=%s) %s" % (bytes(v["a"]), bytes(v["b"]), U.crash_shape(c)[1]),
                     {"mode": "findbuf", "op": "find_buf", "a": v["a"], "b": v["b"]})
+    # aliased operands: find(x, tail of x's own memory) for every tail start (round 10: a
+    # shortcut for "the needle is a tail of the haystack" answered the tail's offset, which need
+    # not be the first occurrence)
+    al = [{"a": [], "b": list(b"a/b/a/b")}, {"a": [], "b": list(b"ab/ab/ab")}, {"a": [], "b": list(b"aaaa")}]
+    al += [{"a": [], "b": v["b"]} for v in rv if 2 <= len(v["b"]) <= 24][:120]
+    ares, acr = U.run_driver(chk, bindir, "pair", al, "c11alias")
+    for i, v in enumerate(al):
+        r = ares.get(i)
+        if r and "find_tails" in r:
+            for k, out in enumerate(r["find_tails"]):
+                x = U.rec("find", v["b"], v["b"][k:], out, "content")
+                x["via"] = "find(x, tail of x)"
+                recs.append(x)
+    for c in acr:
+        v = al[c["crash"]]
+        chk.violate({"op": c["op"], "kind": "crash", "shape": U.crash_shape(c)[0]},
+                    "%s %s (aliased operands)" % (c["op"], U.crash_shape(c)[1]), {"mode": "pair", "op": c["op"], "a": v["a"], "b": v["b"]})
+    # Thue-Morse words and their complements: absent needles that collide under every
+    # polynomial hash modulo a power of two (a rolling-hash search must verify its candidates)
+    def tm(n, flip=False):
+        return [(97 if (bin(k).count("1") % 2 == 0) != flip else 98) for k in range(n)]
+    th = []
+    for n in ([32, 64, 128, 256, 512, 1024] if tier == "quick" else [32, 64, 128, 256, 512, 1024, 2048, 4096]):
+        th.append({"a": [98] + tm(n, True) + [97], "b": tm(n)})                  # absent, collides
+        th.append({"a": [98] + tm(n, True) + [97] + tm(n) + [98], "b": tm(n)})   # occurs later
+        th.append({"a": tm(n) + tm(n, True), "b": tm(n, True)})
+    tres, tcr = U.run_driver(chk, bindir, "pair", th, "c11tm")
+    for i, v in enumerate(th):
+        r = tres.get(i)
+        if not r:
+            continue
+        for op in ("find", "find_buf"):
+            if op in r:
+                recs.append(U.rec(op, v["a"], v["b"], r[op], "content"))
+    for c in tcr:
+        v = th[c["crash"]]
+        chk.violate({"op": c["op"], "kind": "crash", "shape": U.crash_shape(c)[0]},
+                    "%s %s (Thue-Morse operands)" % (c["op"], U.crash_shape(c)[1]), {"mode": "pair", "op": c["op"], "a": v["a"], "b": v["b"]})
     # needles of every length around table / buffer sizes an implementation might use, planted
     # in a haystack one byte longer at each end: once occurring, once with the last byte changed
     # (round 9: a skip table was wrong for needles of exactly 256 bytes; an unsuccessful search
